@@ -145,11 +145,11 @@ theorem Tree.dec_redecode : (t : Tree) → ∀ (d : DecState), t.reads d.msg d.o
     (t.pair.dec d).2.origin = d.origin ∧ (t.pair.dec d).2.msg = d.msg ∧ t.pair.fits d
   | .int o v, d, h => by
     simp only [Tree.reads] at h
-    exact ⟨rfl, rfl, rfl, rfl, h.2.1⟩
+    exact ⟨rfl, rfl, rfl, rfl, h.2.1, o.canon_decodes _ h.2.2⟩
   | .const o v, d, h => by
     simp only [Tree.reads] at h
-    obtain ⟨ho, hr, hfit, hraw, _⟩ := h
-    refine ⟨?_, rfl, rfl, rfl, hfit⟩
+    obtain ⟨ho, hr, hfit, hraw, hcan⟩ := h
+    refine ⟨?_, rfl, rfl, rfl, hfit, o.canon_decodes _ hcan⟩
     have : readNum d.msg (o.pos d.origin d.cursorByte) o.k o.hl / 2 ^ o.bp % 2 ^ o.bl = o.raw v := hraw
     show PVal.atom (o.ofRaw (readNum d.msg (o.pos d.origin d.cursorByte) o.k o.hl / 2 ^ o.bp % 2 ^ o.bl)) = PVal.atom v
     rw [this, (o.raw_spec ho v hr).2]
